@@ -207,8 +207,16 @@ class C13(core.Check):
             if p in EXPR_LIKE:
                 for q in ex:
                     del s0[q]
-            two = {'bytecode': {'value': 0xA0, 'size': 8}, 'operands': {'count': 2, 'specific_operands': {'zeta_first': {'list': {
-                'spE_0_' + p: dict(pool[p]), 'spE_1_empty': {'type': 'empty', 'bytecode': {'value': 29, 'size': 5}}}}}}}
+            pair = [('spE_0_' + p, dict(pool[p])), ('spE_1_empty', {'type': 'empty', 'bytecode': {'value': 29, 'size': 5}})]
+            if rng.random() < 0.35:
+                pair.reverse()            # the implied operand comes first
+            two = {'bytecode': {'value': 0xA0, 'size': 8}, 'operands': {'count': 2, 'specific_operands': {'zeta_first': {'list': dict(pair)}}}}
+            if rng.random() < 0.5:
+                # a listed combination with two written operands in front of the one with the implied operand
+                q = rng.choice(names)
+                two['operands']['specific_operands'] = {
+                    'zeta_first': {'list': {'spL_0_' + p: dict(pool[p]), 'spL_1_' + q: dict(pool[q])}},
+                    'alpha_second': two['operands']['specific_operands']['zeta_first']}
             one = {'bytecode': {'value': 0xA1, 'size': 8}, 'operands': {'count': 1, 'operand_sets': {'list': [sorted(sets)[0]]}}}
             variants = [two, one] if rng.random() < 0.6 else [one, two]
             nv = 0
@@ -231,7 +239,8 @@ class C13(core.Check):
                 for en, ename in enumerate(['zeta_first', 'alpha_second'][:rng.choice([1, 2, 2])]):
                     lst = {}
                     for k in range(cnt):
-                        if k == cnt - 1 and cnt == 2 and rng.random() < 0.3:
+                        if cnt == 2 and not any(c_['type'] == 'empty' for c_ in lst.values()) and \
+                                ((k == cnt - 1 and rng.random() < 0.3) or (k == 0 and rng.random() < 0.12)):
                             # an implied operand: nothing is written for it, so the statement has one operand fewer than count
                             lst[f'sp{vi}_{en}_{k}_empty'] = {'type': 'empty', 'bytecode': {'value': 30 - vi - 4 * en, 'size': 5}}
                             continue
